@@ -1,6 +1,7 @@
-/-! Model of the revent event system (C05): `pox/lib/revent/revent.py`, class `EventMixin`, as it stands after
-the repairs D01 (`raiseEvent` iterates a copy of the handler list) and D28 (`removeListener(eid, eventType)`
-reads the list before using it).
+/-! Model of the revent event system (C05): `pox/lib/revent/revent.py`, class `EventMixin`, with the repairs D01
+(`raiseEvent` iterates a copy of the handler list) and D28 (`removeListener(eid, eventType)` reads the list before using
+it) — and parameterised by `Variant` for D24, D60 (committed: `Variant.current`) and the two proposed repairs
+fixes/C05_once_fires_once and fixes/C05_nonevent_raise_rejected.
 
 Any number of event sources (`M.srcs`), sharing the global event-id counter; handlers subscribed on one source may
 subscribe, unsubscribe and raise on any other.  Event types, handler identities, subscription ids (eids) and owners of
@@ -43,9 +44,9 @@ and the collection of an owner while one of its own methods is executing (CPytho
 it then, and `exec` mirrors that: `ownerRunning`).  Core only. -/
 namespace Pox.Revent
 
-/-- exception classes the code can produce: `ReventError`, `KeyError`, `AttributeError`, anything else (scripted handler exceptions,
+/-- exception classes the code can produce: `ReventError`, `KeyError`, `AttributeError`, `UnboundLocalError`, anything else (scripted handler exceptions,
     `TypeError` of `autoBindEvents` on `_eventMixin_events = True`) -/
-inductive Exc | revent | key | attr | other
+inductive Exc | revent | key | attr | unbound | other
   deriving DecidableEq, Repr
 
 /-- what a handler returns, classified exactly as `raiseEvent` 299-316 looks at it: `None`, `False`, `True`, a tuple of
@@ -85,7 +86,9 @@ structure Entry where
   weak : Option Nat
   deriving DecidableEq, Repr
 
-inductive Form | inst | cls
+/-- how `raiseEvent*` is called: with an event instance, with an event class, or with something that is neither
+    (`junk isClass`: some other class, or some other object) -/
+inductive Form | inst | cls | junk (isClass : Bool)
   deriving DecidableEq, Repr
 
 inductive Action
@@ -245,7 +248,7 @@ structure Script where
 inductive Ev
   | begin (fid src et : Nat) (snap : List Entry)   -- a delivery starts on source `src`; `snap` = the copy of the handler list it iterates
   | call (fid src : Nat) (e : Entry) (live : Bool) -- delivery `fid` (on source `src`) reaches entry `e`; `live`: the handler's code runs
-                                                   -- (`false`: a `CallProxy` whose owner has been collected answers by itself)
+                                                   -- (`false`: a `CallProxy` whose owner has been collected answers by itself, or a spent one-shot entry is skipped)
   | ret (fid : Nat) (e : Entry) (r : Ret) (h : Bool)   -- ... and returned / raised; `h` = `event.halt` at that moment
   | endf (fid : Nat) (noErr : Bool) (r : Res)      -- `raiseEvent`/`raiseEventNoErrors` of delivery `fid` returns / raises
   | res (r : Res)                                  -- result of an action, as seen by whoever performed it
@@ -275,17 +278,26 @@ def setSrc (srcs : Nat → Src) (i : Nat) (s : Src) : Nat → Src :=
 def updSrc (srcs : Nat → Src) (i : Nat) (s : Src) : Nat → Src :=
   fun j => if j = i then s else srcs j
 
-/-- which of the two proposed repairs the tree under test has (read off the source by the harness):
-    `noErrAll` — fixes/C05_D24: `raiseEventNoErrors` treats a `ReventError` that came out of a handler like any other
+/-- which of the repairs the tree under test has (read off the source by the harness on every run):
+    `noErrAll` — D24 (57f2d8f): `raiseEventNoErrors` treats a `ReventError` that came out of a handler like any other
     handler exception (it still re-raises its own complaint about an undeclared event, which happens before any frame);
-    `onceFinally` — fixes/C05_D60: the one-shot removal at 298 sits in a `finally`, so it also happens when the handler raises. -/
+    `onceFinally` — D60 (0e1d0cd): the one-shot removal sits in a `finally`, so it also happens when the handler raises;
+    `oncePre` — fixes/C05_once_fires_once: a one-shot entry is unsubscribed *before* it fires and skipped when it is not
+    subscribed any more, so it fires at most once ever, also under re-entrant raises;
+    `junkRejected` — fixes/C05_nonevent_raise_rejected: `raiseEvent` of something that is neither an `Event` nor an `Event`
+    subclass raises `ReventError` (before: `TypeError` for an object, `UnboundLocalError` for a class). -/
 structure Variant where
   noErrAll : Bool
   onceFinally : Bool
+  oncePre : Bool := false
+  junkRejected : Bool := false
   deriving DecidableEq, Repr
 
-/-- the code as it stands: neither repair -/
-def Variant.asIs : Variant := ⟨false, false⟩
+/-- the tree as committed: D24 and D60 repaired -/
+def Variant.current : Variant := ⟨true, true, false, false⟩
+
+/-- the tree before any of these repairs (a tree that reverts them is modelled as such) -/
+def Variant.asIs : Variant := ⟨false, false, false, false⟩
 
 structure M where
   v : Variant                  -- never changes
@@ -366,6 +378,16 @@ def exec (m : M) (sa : SAct) (g : Bool) : M :=
     let start : M := if (m.srcs sa.src).isDeclared et then push m1 m.nextFid sa.src et noErr g
                      else { m1 with pend := some (.exc .revent, g) }        -- 285-288
     match form with
+    | .junk isClass =>
+      -- not an event at all.  Unrepaired: `issubclass(5, Event)` is a TypeError, and a non-Event class falls through to
+      -- an unbound `eventType`; `raiseEventNoErrors` swallows either.  Repaired: the raiser's own ReventError, which
+      -- `raiseEventNoErrors` lets through unless (D24 repaired) the source accepts every event type.
+      let r : Res :=
+        if m.v.junkRejected then
+          (if noErr && m.v.noErrAll && (m.srcs sa.src).acceptAll then .ok .none else .exc .revent)
+        else if noErr then .ok .none
+        else .exc (if isClass then .unbound else .other)
+      { m1 with pend := some (r, g) }
     | .inst => start
     | .cls =>
       match (m.srcs sa.src).handlers et with              -- 269-272 early-out: no event object is created
@@ -375,6 +397,16 @@ def exec (m : M) (sa : SAct) (g : Bool) : M :=
   | a =>
     let r := doActionM m.srcs sa.src a
     { m with srcs := r.1, pend := some (r.2, g) }
+
+/-- `oncePre`: before a one-shot entry fires, `if once and not self.removeListener(eid): continue` — claim the shot by
+    unsubscribing (`some` = the sources afterwards), or find it spent / unsubscribed (`none` = skip the entry).
+    Every other entry, and every entry without that repair, is simply due. -/
+def claim (v : Variant) (srcs : Nat → Src) (i : Nat) (e : Entry) : Option (Nat → Src) :=
+  if v.oncePre && e.once then
+    match removeWhere (srcs i) (matchEid e.eid) none with
+    | (s', .ok (.bool true)) => some (updSrc srcs i s')
+    | _ => none
+  else some srcs
 
 def step (β : Beh) (m : M) : M :=
   match m.pend with
@@ -398,15 +430,20 @@ def step (β : Beh) (m : M) : M :=
         match fr.rest with
         | [] => finish m fr st fr.halt
         | e :: rest =>
-          match m.gone.find? (fun p => p.1 == e.eid) with
-          | some (_, zombie) =>                 -- 597-602: the proxy answers by itself: `None`, or ReventError("object is gone")
-            { m with log := m.log ++ [.call fr.fid fr.src e false],
-                     stack := { fr with rest := rest, cur := some (e, [], if zombie then .exc .revent else .none) } :: st }
+          match claim m.v m.srcs fr.src e with
           | none =>
-            let sc := β e.hid m.log
-            { m with log := m.log ++ [.call fr.fid fr.src e true],
-                     stack := { fr with rest := rest, cur := some (e, sc.acts, sc.ret),
-                                        halt := match sc.halt with | some b => b | none => fr.halt } :: st }
+            { m with log := m.log ++ [.call fr.fid fr.src e false],
+                     stack := { fr with rest := rest, cur := some (e, [], .none) } :: st }
+          | some srcs' =>
+            match m.gone.find? (fun p => p.1 == e.eid) with
+            | some (_, zombie) =>                 -- 597-602: the proxy answers by itself: `None`, or ReventError("object is gone")
+              { m with srcs := srcs', log := m.log ++ [.call fr.fid fr.src e false],
+                       stack := { fr with rest := rest, cur := some (e, [], if zombie then .exc .revent else .none) } :: st }
+            | none =>
+              let sc := β e.hid m.log
+              { m with srcs := srcs', log := m.log ++ [.call fr.fid fr.src e true],
+                       stack := { fr with rest := rest, cur := some (e, sc.acts, sc.ret),
+                                          halt := match sc.halt with | some b => b | none => fr.halt } :: st }
 
 def run (β : Beh) : Nat → M → M
   | 0, m => m
@@ -419,11 +456,17 @@ def drive (β : Beh) : Nat → M → M
   | 0, m => m
   | n + 1, m => if m.finished then m else drive β n (step β m)
 
-/-- handlers invoked for delivery `f`, in order -/
+/-- entries delivery `f` has reached, in order (also those that answered without their handler's code running) -/
 def callsOf (f : Nat) : List Ev → List Entry
   | [] => []
   | .call f' _ e _ :: l => if f' = f then e :: callsOf f l else callsOf f l
   | _ :: l => callsOf f l
+
+/-- entries whose handler's code delivery `f` has really run, in order -/
+def liveCallsOf (f : Nat) : List Ev → List Entry
+  | [] => []
+  | .call f' _ e live :: l => if f' = f ∧ live = true then e :: liveCallsOf f l else liveCallsOf f l
+  | _ :: l => liveCallsOf f l
 
 /-- handlers of delivery `f` that have returned / raised, with what, and `event.halt` at that moment -/
 def retsOf (f : Nat) : List Ev → List (Entry × Ret × Bool)
